@@ -75,32 +75,36 @@ def addLabel : List (String × Nat) → String → List (String × Nat)
   | [], k => [(k, 1)]
   | (k', n) :: r, k => if k' = k then (k', n + 1) :: r else (k', n) :: addLabel r k
 
-/-- `ParserState.fail(label, pos=None, rule_name=None, force=False)`.
-    `ruleName = none` reads `self.rule_stack[-1].name` (`IndexError` on an empty rule stack:
-    result `none`).  `pos = pos or self.pos` is mirrored literally (`pos = 0` falls back). -/
+/-- `rule_name = rule_name or self.rule_stack[-1].name`; `none` = `IndexError` (empty rule stack) -/
+def failName (c : PState) (ruleName : Option String) : Option String :=
+  match ruleName with
+  | some n => if n.isEmpty then c.rstack.items.head? else some n
+  | none => c.rstack.items.head?
+
+/-- `pos = pos or self.pos` (mirrored literally: an explicit `0` falls back to `self.pos`) -/
+def failPos (c : PState) (posArg : Option Nat) : Nat :=
+  match posArg with
+  | some q => if q = 0 then c.pos else q
+  | none => c.pos
+
+/-- the body of `fail` once it is known not to be suppressed: update the furthest-failure record -/
+def failRecord (c : PState) (name : String) (p : Nat) : PState :=
+  let isNeg := c.negDepth % 2 == 1
+  if (p : Int) > c.fpos then
+    { c with fpos := p, fstack := c.rstack.items.reverse,
+             fexp := if isNeg then [] else [(name, 1)],
+             funexp := if isNeg then [(name, 1)] else [] }
+  else if (p : Int) = c.fpos then
+    if isNeg then { c with funexp := addLabel c.funexp name }
+    else { c with fexp := addLabel c.fexp name }
+  else c
+
+/-- `ParserState.fail(label, pos=None, rule_name=None, force=False)`.  Labels are abstracted to
+    a count per key.  `none` = Python raises `IndexError` at `self.rule_stack[-1]`. -/
 def fail (c : PState) (ruleName : Option String) (force : Bool) (posArg : Option Nat := none) :
     Option PState :=
   if (c.negDepth > 0 && !force) || c.suppress then some c
-  else
-    let isNeg := c.negDepth % 2 == 1
-    let name? : Option String :=
-      match ruleName with
-      | some n => if n.isEmpty then c.rstack.items.head? else some n   -- `rule_name or ...`
-      | none => c.rstack.items.head?
-    match name? with
-    | none => none
-    | some name =>
-      let p : Nat := match posArg with
-        | some q => if q = 0 then c.pos else q
-        | none => c.pos
-      if (p : Int) > c.fpos then
-        some { c with fpos := p, fstack := c.rstack.items.reverse,
-                      fexp := if isNeg then [] else [(name, 1)],
-                      funexp := if isNeg then [(name, 1)] else [] }
-      else if (p : Int) = c.fpos then
-        if isNeg then some { c with funexp := addLabel c.funexp name }
-        else some { c with fexp := addLabel c.fexp name }
-      else some c
+  else (c.failName ruleName).map fun name => c.failRecord name (c.failPos posArg)
 
 end PState
 
